@@ -139,12 +139,32 @@ Fixpoint find_q (prev : Qc) (s : list (Qc * Qc)) (cw : list Qc) (alpha : Qc) : o
   | _, _ => None
   end.
 
-Definition quantile (x : list Qc) (alpha : Qc) (w : option (list Qc)) : option Qc :=
+(** the definition in use before the order of the checks was aligned with the Python code (and with
+    the C13 model [Quantile.wsq_idx]); kept only to state that nothing changed on well-formed
+    inputs: [C16_Results.quantile_unchanged_on_wf] *)
+Definition quantile_old (x : list Qc) (alpha : Qc) (w : option (list Qc)) : option Qc :=
   let w' := match w with None => repeat 1 (length x) | Some w => w end in
   if negb (length w' =? length x)%nat then None else
   let s := isort (combine x w') in
   if qeqb alpha 0 then option_map fst (hd_error s) else
   let tot := sumq w' in
+  find_q 0 s (force_last (cumsum_from 0 (map (fun p => snd p / tot) s))) alpha.
+
+(** in the order of the Python code:
+    - [alpha == 0]: [x[index[0]]], the smallest value; the weights are NOT read (no length check;
+      IndexError on an empty sample).  The sort key is the value, so the second component of the
+      sorted pairs is immaterial here ([x] itself is used);
+    - [weights / np.sum(weights)], [weights[index]]: lengths must agree;
+    - a zero sum makes every normalised weight nan: [cum = [0, nan, .., nan, 1.0]] has a hit only
+      for a one-element sample ([cum = [0, 1.0]]), otherwise IndexError.  ([Qc] has [w / 0 = 0]:
+      without this test the scan would select the largest value.) *)
+Definition quantile (x : list Qc) (alpha : Qc) (w : option (list Qc)) : option Qc :=
+  if qeqb alpha 0 then option_map fst (hd_error (isort (combine x x))) else
+  let w' := match w with None => repeat 1 (length x) | Some w => w end in
+  if negb (length w' =? length x)%nat then None else
+  let s := isort (combine x w') in
+  let tot := sumq w' in
+  if qeqb tot 0 && negb (length x =? 1)%nat then None else
   find_q 0 s (force_last (cumsum_from 0 (map (fun p => snd p / tot) s))) alpha.
 
 (** ---------- BolfiSample ---------- *)
